@@ -646,7 +646,7 @@ class InProtocolBase(ProtocolMixin):
 
             astz = cls_attrs.as_timezone
             if astz:
-                retval = retval.astimezone(cls_attrs.as_time_zone)
+                retval = retval.astimezone(astz)
 
         else:
             retval = self.datetime_from_unicode_iso(cls, string)
